@@ -125,7 +125,7 @@ C01_NoOpJoins ==
 
 \* C05: append-only
 \* (a Fork replaces replica ev.r by a NEW log instance: its pre and post are different logs)
-SameLog(r) == ~(ev.op = "F" /\ r = ev.r)
+SameLog(r) == ~(ev.op \in {"F", "L"} /\ r = ev.r)
 C05_EntriesMonotone ==
   [][IsStep => \A r \in R : post[r].pure /\ SameLog(r) =>
         /\ S(pre[r].ents) \subseteq S(post[r].ents)
@@ -239,12 +239,25 @@ C17_WrittenBeforeReturned ==
 C17_Recoverable ==
   [][IsStep => \A rc \in S(ev.recov) :
         LET o == post[rc.r] IN
-        o.pure =>
+        ~rc.old /\ o.pure =>
           /\ rc.err = ""
           /\ S(rc.ents) = S(o.ents) /\ NoDup(rc.ents)
           /\ S(rc.heads) = S(o.heads)
           /\ rc.lid = o.lid
           /\ StrictOn(UU, Fn, S(o.ents)) => rc.values = o.values]_vars
+\* every handle an EARLIER op returned still loads to the state its log had when it was returned
+C17_StillRecoverable ==
+  [][IsStep => \A rc \in S(ev.recov) :
+        rc.old /\ rc.wantpure =>
+          /\ rc.err = ""
+          /\ S(rc.ents) = S(rc.wantents) /\ NoDup(rc.ents)
+          /\ S(rc.heads) = S(rc.wantheads)
+          /\ rc.lid = rc.wantlid
+          /\ StrictOn(UU, Fn, S(rc.wantents)) => rc.values = rc.wantvalues]_vars
+\* the store after the op: every entry block still has the blocks of its predecessors and references
+\* (whatever the op wrote or deleted)
+C17_StoreStaysClosed ==
+  [][IsStep => \A x \in S(ev.storedpost) : (S(UU[x].next) \cup S(UU[x].refs)) \subseteq S(ev.storedpost)]_vars
 \* an append whose block the store refused returns an error and leaves the log as it was
 C17_FailedWriteLeavesLog ==
   [][IsStep /\ ev.op = "AF" =>
@@ -339,6 +352,20 @@ M_Fork ==
        /\ S(post[r].nidx) = NextsOf(UU, S(pre[s].ents))
        /\ post[r].clk = MaxTimeOf(UU, pre[s].heads, 0)
        /\ post[r].ident = pre[r].ident]_vars
+
+\* a log read back from the store: the causal closure of its starting points, heads derived from the entries
+\* (listed heads for the manifest loader), reverse index rebuilt, clock from LogOptions.Heads only
+M_Load ==
+  [][IsStep /\ ev.op = "L" /\ ~ev.div =>
+       LET r == ev.r  s == ev.s
+           from == IF ev.kind = "hash" THEN {ev.n} ELSE S(pre[s].heads)
+           got  == from \cup UNION {PastOf(UU, x) : x \in from}
+       IN /\ ev.err = "" /\ ~ev.panic
+          /\ S(post[r].ents) = got
+          /\ S(post[r].rawheads) = MaximalOf(UU, got)
+          /\ S(post[r].nidx) = NextsOf(UU, got)
+          /\ post[r].clk = (IF ev.kind = "mh" THEN MaxTimeOf(UU, pre[s].heads, 0) ELSE 0)
+          /\ post[r].ident = pre[r].ident]_vars
 
 M_SetIdentity ==
   [][IsStep /\ ev.op = "SI" =>
